@@ -219,6 +219,35 @@ def diffs(ctx: Ctx):
                                 x = x.args[0]
                             return x
 
+                    # `np.swapaxes(X, 0, k)[idxs] = nan` (also np.moveaxis(X, k, 0)) blanks the positions `idxs` of AXIS k of X;
+                    # k and idxs may be the variables of a loop over a literal tuple of (axis, idxs) pairs
+                    tv = n.targets[0].value
+                    if isinstance(tv, ast.Call) and u(tv.func) in ("np.swapaxes", "np.moveaxis") and len(tv.args) == 3 and not isinstance(sl, ast.Tuple):
+                        a1, a2 = tv.args[1], tv.args[2]
+                        ax_expr = a2 if (isinstance(a1, ast.Constant) and a1.value == 0) else (a1 if (isinstance(a2, ast.Constant) and a2.value == 0) else None)
+                        pairs = []
+                        if ax_expr is not None:
+                            idx_expr = unwrap(sl)
+                            loops = [f_ for f_ in ast.walk(fn) if isinstance(f_, ast.For) and isinstance(f_.target, ast.Tuple) and isinstance(f_.iter, (ast.Tuple, ast.List)) and any(x is n for x in ast.walk(f_))]
+                            if loops and isinstance(ax_expr, ast.Name) and isinstance(idx_expr, ast.Name):
+                                names_ = [t_.id if isinstance(t_, ast.Name) else None for t_ in loops[-1].target.elts]
+                                for item in loops[-1].iter.elts:
+                                    if isinstance(item, ast.Tuple) and len(item.elts) == len(names_) and ax_expr.id in names_ and idx_expr.id in names_:
+                                        pairs.append((item.elts[names_.index(ax_expr.id)], item.elts[names_.index(idx_expr.id)]))
+                            else:
+                                pairs.append((ax_expr, idx_expr))
+                        handled = False
+                        for ax_e, idx_e in pairs:
+                            if isinstance(ax_e, ast.Constant) and isinstance(ax_e.value, int):
+                                for which, attr in (("rows", "self.diff_row_idxs"), ("columns", "self.diff_column_idxs")):
+                                    if attr in [u(unwrap(v)) for v in res(idx_e)]:
+                                        handled = True
+                                        if ax_e.value == (0 if which == "rows" else 1):
+                                            found[which] = True
+                                        else:
+                                            wrong.append(f"{attr} used on axis {ax_e.value} (through {u(tv.func)})")
+                        if handled:
+                            continue
                     texts = [[u(unwrap(v)) for v in res(p)] for p in parts]
                     # a bare TUPLE as the whole subscript of a 1-D array is read by numpy as one index per dimension
                     if not isinstance(sl, ast.Tuple) and u(sl) in ("self.diff_row_idxs", "self.diff_column_idxs"):
